@@ -451,6 +451,8 @@ def det_case(ck, i):
                  for s in hmc._DEBUG_STORE]
         sub_ends = list(hmc._DEBUG_SUBTREE_END_IDXS)
         tree_ends = list(hmc._DEBUG_TREE_END_IDXS)
+        if not all(np.all(np.isfinite(z)) for z in store) or not np.all(np.isfinite(cand)):
+            raise Skip("trajectory left the floating point range (step size beyond stability)")
         ck.hit("nuts_trees")
         ck.hit("nuts_states_recorded", len(store))
         desc.update(depth=depth, bias=bias, eps=float(f"{eps_n:.3g}"), maxdE=maxdE, tree_depth=tdepth,
